@@ -16,6 +16,12 @@ pub fn units(tier: &str, _seed: u64) -> Vec<String> {
         v.push(unit(&[("shape", s), ("n", "1"), ("fs", "PEN"), ("k", "sym"), ("a", "sym")]));
     }
     v.push(unit(&[("shape", shapes[1]), ("n", "1"), ("fs", "SYM"), ("k", "sym"), ("a", "sym")]));
+    // two prioritised electricity sources and two services, without and with load matching: by-source and
+    // by-service-by-source breakdowns of the produced energy used on site
+    for lm in ["0", "1"] {
+        v.push(unit(&[("shape", "U:CAL:ELECTRICIDAD;U:ACS:ELECTRICIDAD;P:EL_INSITU;P:EL_COGEN;U:COGEN:GASNATURAL"), ("n", "1"), ("fs", "PEN"), ("k", "sym"), ("a", "sym"), ("lm", lm)]));
+    }
+    v.push(unit(&[("shape", shapes[0]), ("n", "2"), ("fs", "PEN"), ("k", "sym"), ("a", "sym"), ("lm", "1")]));
     if tier == "thorough" {
         for s in shapes {
             v.push(unit(&[("shape", s), ("n", "2"), ("fs", "CEU"), ("k", "sym"), ("a", "sym"), ("lm", "1")]));
@@ -186,6 +192,33 @@ pub fn scenario(u: &Unit) -> String {
         let by_src: Vec<F> = sorted_kv(b.prod.by_src_an.iter()).into_iter().map(|x| *x.1).collect();
         if by_src.len() == 1 {
             ob(&format!("{}.prod.an=sum_src", cn), b.prod.an.ident(by_src[0]));
+        }
+        // produced energy used on site: by source adds up to the total, and by service adds up to each source's part
+        // (the total is clamped to the EPB use after the allocation, so this is a tolerant statement)
+        let epus_src: Vec<(String, &F)> = sorted_kv(b.prod.epus_by_src_an.iter());
+        let mag = b.used.epus_an + b.prod.an;
+        if epus_src.len() == 1 {
+            ob_via(&format!("{}.prod.epus=sum_src", cn), "same-term", b.prod.epus_an.ident(*epus_src[0].1), b.prod.epus_an.approx(*epus_src[0].1, 4.0 * e.n as f32, mag));
+        } else if epus_src.len() > 1 {
+            let s = epus_src.iter().fold(k(0.0), |a, x| a + *x.1);
+            ob(&format!("{}.prod.epus~sum_src", cn), b.prod.epus_an.approx(s, 4.0 * (e.n * epus_src.len()) as f32, mag));
+        }
+        if by_src.len() > 1 {
+            let s = by_src.iter().fold(k(0.0), |a, x| a + *x);
+            ob(&format!("{}.prod.an~sum_src", cn), b.prod.an.approx(s, 4.0 * (e.n * by_src.len()) as f32, mag));
+        }
+        for (src, by_srv_map) in sorted_kv(b.prod.epus_by_srv_by_src_an.iter()) {
+            let parts: Vec<F> = sorted_kv(by_srv_map.iter()).into_iter().map(|x| *x.1).collect();
+            if let Some(tot) = crate::by_name!(b.prod.epus_by_src_an, src.as_str()) {
+                if parts.len() == 1 {
+                    ob_via(&format!("{}.prod.epus_by_src.{}=sum_srv", cn, src), "same-term", tot.ident(parts[0]), tot.approx(parts[0], 4.0 * e.n as f32, mag));
+                } else if parts.len() > 1 {
+                    let s = parts.iter().fold(k(0.0), |a, x| a + *x);
+                    ob(&format!("{}.prod.epus_by_src.{}~sum_srv", cn, src), tot.approx(s, 4.0 * (e.n * parts.len()) as f32, mag));
+                }
+            } else {
+                ob(&format!("{}.prod.epus_by_src.{}.present", cn, src), f());
+            }
         }
         // with a single service the service share is the whole
         let a_srv: Vec<&RenNrenCo2> = sorted_kv(b.we.a_by_srv.iter()).into_iter().map(|x| x.1).collect();
